@@ -388,7 +388,7 @@ func genPattern(name string) *rapid.Generator[string] {
 			k := rapid.IntRange(0, 9).Draw(t, "tk")
 			switch {
 			case k < 5:
-				toks = append(toks, rapid.SampledFrom([]string{"a", "b", "ab", "a", "b", "ab", "q\"", "\\", "budget", "get"}).Draw(t, "lit")) // "a" is a string prefix of "ab"
+				toks = append(toks, rapid.SampledFrom([]string{"a", "b", "ab", "a", "b", "ab", "q\"", "\\", "budget", "get", "a$", "a$"}).Draw(t, "lit")) // "a" is a string prefix of "ab"
 			case k < 8:
 				toks = append(toks, "*")
 			default:
@@ -784,4 +784,99 @@ func TestRegressDuplicateOwnership(t *testing.T) {
 	msg, _ := check(c)
 	evid.ReportKnown(t, prop, "C09-duplicate-overlapping-ownership", msg != "", msg, c)
 	ev.Case(true, evid.Hash("regress-dup"), "regress")
+}
+
+// TestPropLongOwnership: explicit ownership lists of several hundred entries; the reset sent
+// on start (and by ResetAll) lists every owned pattern, and every pattern is subscribed.
+func TestPropLongOwnership(t *testing.T) {
+	rapid.Check(t, func(rt *rapid.T) {
+		nr := rapid.SampledFrom([]int{0, 1, 2, 255, 256, 257, 300, 600}).Draw(rt, "resources")
+		na := rapid.SampledFrom([]int{0, 1, 255, 256, 257, 300, 600, 700}).Draw(rt, "access")
+		if nr == 0 && na == 0 {
+			na = 257
+		}
+		var rl, al []string
+		for i := 0; i < nr; i++ {
+			rl = append(rl, fmt.Sprintf("svc.r%d", i))
+		}
+		for i := 0; i < na; i++ {
+			al = append(al, fmt.Sprintf("svc.a%d.>", i))
+		}
+		s := res.NewService("svc")
+		s.SetLogger(nil)
+		s.Handle(">", res.Access(res.AccessGranted), res.GetResource(func(r res.GetRequest) { r.NotFound() }))
+		if rl == nil {
+			rl = []string{}
+		}
+		if al == nil {
+			al = []string{}
+		}
+		s.SetOwnedResources(rl, al)
+		conn := fakeconn.New()
+		served := make(chan struct{})
+		s.SetOnServe(func(*res.Service) { close(served) })
+		exited := make(chan error, 1)
+		go func() { exited <- s.Serve(conn) }()
+		select {
+		case <-served:
+		case err := <-exited:
+			rt.Fatalf("Serve with %d resources and %d access patterns returned %v", nr, na, err)
+		case <-time.After(20 * time.Second):
+			rt.Fatalf("VERIF-INCONCLUSIVE: service did not start")
+		}
+		collect := func(from int) (map[string]bool, map[string]bool) {
+			gr, ga := map[string]bool{}, map[string]bool{}
+			for _, e := range conn.LogFrom(from) {
+				if e.Kind != "pub" || e.Subject != "system.reset" {
+					continue
+				}
+				var p struct {
+					Resources []string `json:"resources"`
+					Access    []string `json:"access"`
+				}
+				_ = json.Unmarshal(e.Data, &p)
+				for _, x := range p.Resources {
+					gr[x] = true
+				}
+				for _, x := range p.Access {
+					ga[x] = true
+				}
+			}
+			return gr, ga
+		}
+		verify := func(when string, from int) {
+			gr, ga := collect(from)
+			for _, x := range rl {
+				if !gr[x] {
+					rt.Fatalf("%s: the owned resource pattern %q (one of %d) is not announced in any system.reset (%d resource and %d access patterns announced)", when, x, nr, len(gr), len(ga))
+				}
+			}
+			for _, x := range al {
+				if !ga[x] {
+					rt.Fatalf("%s: the owned access pattern %q (one of %d, with %d resource patterns) is not announced in any system.reset (%d access patterns announced)", when, x, na, nr, len(ga))
+				}
+			}
+			if len(gr) != len(rl) || len(ga) != len(al) {
+				rt.Fatalf("%s: system.reset announces %d resource and %d access patterns, owned are %d and %d", when, len(gr), len(ga), nr, na)
+			}
+		}
+		verify("on start", 0)
+		mark := conn.LogLen()
+		s.ResetAll()
+		verify("on ResetAll", mark)
+		// every owned pattern has a subscription that matches its requests
+		for _, x := range rl {
+			if conn.MatchCount("get."+x) == 0 {
+				rt.Fatalf("no subscription matches get.%s", x)
+			}
+		}
+		for i := range al {
+			if subj := fmt.Sprintf("access.svc.a%d.x", i); conn.MatchCount(subj) == 0 {
+				rt.Fatalf("no subscription matches %s", subj)
+			}
+		}
+		_ = s.Shutdown()
+		<-exited
+		ev.Case(nr > 256 || na > 256, evid.Hash("longownership", nr, na), "long-ownership")
+	})
 }
